@@ -778,8 +778,9 @@ class Exec:
                         best = (k, f)
                 return best[1]
             return None
-        parts = split_top(name, ':')
         parts = [p for p in name.split('::')] if '<' not in name else self._split_path(name)
+        # drop turbofish segments (Type::<T>::method)
+        parts = [p for i, p in enumerate(parts) if not (i > 0 and p.startswith('<') and p.endswith('>') and ' as ' not in p)]
         meth = parts[-1]
         if len(parts) >= 2:
             tyl = re.sub(r'<.*$', '', parts[-2])
@@ -1215,7 +1216,7 @@ class Exec:
         raise Unsupported('transmute const of ' + ty)
 
     def named_const(self, name, cur=None):
-        m = re.match(r'^(?:core|std)::num::<impl ([ui](?:\d+|size))>::(MAX|MIN|BITS)$', name)
+        m = re.match(r'^(?:core|std)::num::<impl ([ui](?:\d+|size))>::(MAX|MIN|BITS)$', name) or re.match(r'^([ui](?:\d+|size))::(MAX|MIN|BITS)$', name)
         if m:
             t, what = m.group(1), m.group(2)
             w = INT_W[t]
